@@ -243,15 +243,30 @@ Ref(t, p) ==
                   good == ds # <<>> /\ Len(ds) <= 7 /\ \A i \in 1..Len(ds) : HexV(ds[i]) < (IF hex THEN 16 ELSE 10)
                   val == IF good THEN NumVal(ds, IF hex THEN 16 ELSE 10, 0) ELSE 0
               IN IF good /\ val >= 1 /\ val <= 1114111 /\ ~(val \in 55296..57343) THEN Ok(Utf8(val), q + 1) ELSE Fail
-\* character data: content (q = 0, ends before '<' or at the end) or attribute value (ends after the quote q, no '<')
+\* character data: content (q = 0, ends before '<' or at the end) or attribute value (ends after the quote q, no '<').
+\* Plain runs are skipped by galloping + bisection instead of one recursion level per character (TLC's identifier
+\* lookup is linear in the recursion depth, which made long texts quadratic).
+Stops(c, q) == c = 0 \/ c = 60 \/ c = 38 \/ (q # 0 /\ c = q)
+PlainRange(t, lo, hi, q) == \A i \in lo..hi : ~Stops(t[i], q)
+RECURSIVE FirstStop(_, _, _, _)
+FirstStop(t, lo, hi, q) ==           \* some position in lo..hi stops; the first one
+    IF lo >= hi THEN lo
+    ELSE LET mid == (lo + hi) \div 2 IN IF PlainRange(t, lo, mid, q) THEN FirstStop(t, mid + 1, hi, q) ELSE FirstStop(t, lo, mid, q)
+RECURSIVE Gallop(_, _, _, _)
+Gallop(t, p, w, q) ==                \* first position >= p that stops, Len(t) + 1 if none
+    IF p > Len(t) THEN p
+    ELSE LET hi == IF p + w - 1 > Len(t) THEN Len(t) ELSE p + w - 1 IN
+         IF PlainRange(t, p, hi, q) THEN Gallop(t, hi + 1, 2 * w, q) ELSE FirstStop(t, p, hi, q)
 RECURSIVE Chars(_, _, _, _)
-Chars(t, p, acc, q) ==
-    LET c == At(t, p) IN
+Chars(t, p0, acc0, q) ==
+    LET p   == Gallop(t, p0, 8, q)
+        acc == acc0 \o SubSeq(t, p0, p - 1)
+        c   == At(t, p)
+    IN
     IF c = 0 THEN (IF q = 0 THEN Ok(acc, p) ELSE Fail)
     ELSE IF c = 60 THEN (IF q = 0 THEN Ok(acc, p) ELSE Fail)
-    ELSE IF q # 0 /\ c = q THEN Ok(acc, p + 1)
-    ELSE IF c = 38 THEN LET r == Ref(t, p) IN IF r.ok THEN Chars(t, r.p, acc \o r.v, q) ELSE Fail
-    ELSE Chars(t, p + 1, Append(acc, c), q)
+    ELSE IF c = 38 THEN (LET r == Ref(t, p) IN IF r.ok THEN Chars(t, r.p, acc \o r.v, q) ELSE Fail)
+    ELSE Ok(acc, p + 1)              \* the closing quote
 \* after the element name: attributes, then '>' or '/>'.  v = [a, self]
 RECURSIVE Attrs(_, _, _)
 Attrs(t, p, acc) ==
